@@ -114,10 +114,17 @@ def run(cfg, R):
         if optn == "sgd": return optax.sgd(lr)
         return optax.chain(optax.scale_by_schedule(lambda count: sched[jnp.minimum(count, sched.shape[0] - 1)]), optax.scale(-1.0))
 
+    with_val = cfg.get("val", False)
+    if with_val:
+        # (used by C19) a scripted validation module called at every iteration: criterion = 2*theta + 0.5 of the parameters it is GIVEN
+        from .c19 import Scripted
+        L_ = n_iter + 1
+        VAL = Scripted(call_every=jnp.array(1), stops=jnp.zeros((L_,), dtype=bool), improves=jnp.zeros((L_,), dtype=bool), k=jnp.array(0))
+
     def f(lr, sched, params, data, fk, ft):
         _, _, loss = build(fk, ft)
         opt = mkopt(lr, sched)
-        out = jinns.solve(n_iter, params, data, loss, opt, tracked_params=tracked, verbose=False)
+        out = jinns.solve(n_iter, params, data, loss, opt, tracked_params=tracked, verbose=False, **(dict(validation=VAL) if with_val else {}))
         ref = reference(n_iter, params, data, loss, opt, tracked=tracked)
         # iterates of the reference loop: parameters after every update (for F and "the parameters held just before it")
         refs = []
@@ -130,7 +137,7 @@ def run(cfg, R):
             refs.append((p_, val, terms))
         return out, refs
 
-    name = f"{fault}/{optn}/it{n_iter}"
+    name = f"{fault}/{optn}/it{n_iter}" + ("/validated-every-iteration" if with_val else "")
     tr = R.trace(name, f, (lr, sched, params, data, fk, ft), key=f"{fault}:raises", use_stubs=True, missing="example")
     if tr is None: return
 
@@ -211,6 +218,17 @@ def run(cfg, R):
                     G.append((f"fault at iteration {i} => loss history[{j}] is left untouched (0)", implies(isF[i], feq(out[1][j], const(0, "Real")))))
                     G.append((f"fault at iteration {i} => term histories[{j}] are left untouched (0)",
                               implies(isF[i], tm.conj([feq(out[2][k][j], const(0, "Real")) for k in out[2]]))))
+        if with_val:
+            crit = out[7]
+            from fractions import Fraction
+            two, half = const(2, "Real"), const(Fraction(1, 2), "Real")
+            for i in range(n_iter):
+                # the module is invoked with the post-update parameters, also at the failing iteration: its criterion there is NaN
+                G.append((f"fault at iteration {i} => the validation criterion recorded at {i} is that of the post-update (NaN) parameters", implies(isF[i], N(crit[i]))))
+                for j in range(i):
+                    th = refs[j][0].eq_params["theta"][()]
+                    G.append((f"fault at iteration {i} => the validation criterion recorded at {j} is that of the post-update parameters",
+                              implies(isF[i], feq(crit[j], tm.add(tm.mul(two, th), half)))))
         G.append(("no fault => final parameters are the reference loop's", implies(none, tree_feq(out[0], refs[-1][0]))))
         for j in range(n_iter):
             G.append((f"no fault => loss history[{j}] is the reference loop's", implies(none, feq(out[1][j], refs[j][1][()]))))
